@@ -460,6 +460,12 @@ def r_widths(ctx, run, rule):
     single = set(dw.get('plain', set())) | {w for w in dw.get('u1', set())}
     want = {2, 6, 8}
     ok_dec = dw.get('plain') == {2} and dw.get('u1', set()) <= {6, 8} and dw.get('u1')
+    # a surrogate pair is two \\u escapes, each 6 (plain) or 8 (braced) bytes long
+    if ok_dec and dw.get('u2') and not dw['u2'] <= {12, 14, 16}:
+        run.violation(rule, 'util::parse_escaped_string', 'decoder-widths[pair]', f'a surrogate pair consumes {sorted(dw["u2"])} bytes on some path; two escapes of 6 or 8 bytes make 12, 14 or 16: '
+                      'one form of the second escape leaves a byte (its closing brace) unconsumed or eats one too many, so the text after it is decoded shifted')
+    elif ok_dec and dw.get('u2'):
+        run.proved(rule, 'util::parse_escaped_string', 'decoder-widths[pair]', f'surrogate pairs consume {sorted(dw["u2"])} bytes')
     if not ok_dec and dw.get('plain', {2}) == {2} and dw.get('u1', set()) <= {6, 8} and (not dw.get('u1') or set(dw) - {'plain', 'u1', 'u2'}):
         run.undecided(rule, 'util::parse_escaped_string', 'decoder-widths', f'the \\u branch of the decoding pass does not read its hex digits in the shape this rule reads '
                       f'(found {dict((k, sorted(v)) for k, v in dw.items())}; moved to a helper?): the bytes it consumes per escape are not decided')
